@@ -237,6 +237,15 @@ fn opaque_columns(ctx: &mut Ctx) {
         ("type Pt = {\n  x: int\n  y: int\n}\nlet p = Pt(1, 2)\nlet r: int = match p {\n}\nprintln(r)\n", true, vec!["Pt(x = _, y = _)"], 0),
         ("let o: option<int> = .some(1)\nlet r: int = match o {\n}\nprintln(r)\n", true, vec!["none", "some of _"], 0),
         ("let i: option<bool> = .none\nlet o: option<option<bool>> = .some(i)\nlet r: int = match o {\n  .some(.some(true)) -> 0\n  .none -> 1\n}\nprintln(r)\n", true, vec!["some of none", "some of some of false"], 0),
+        // generic types whose payload nests the type parameter inside another nominal type (option, a user
+        // generic, a tuple inside option, a recursive reference), instantiated at bool / a small enum, with
+        // arms that enumerate the constructors at that depth without a wildcard
+        ("type Wrap<T> =\n  | Full(option<T>)\n  | Hollow\nlet w: Wrap<bool> = Wrap.Full(.some(true))\nlet r: int = match w {\n  .Full(.some(true)) -> 0\n  .Full(.some(false)) -> 1\n  .Full(.none) -> 2\n  .Hollow -> 3\n}\nprintln(r)\n", false, vec![], 0),
+        ("type Wrap<T> =\n  | Full(option<T>)\n  | Hollow\nlet w: Wrap<bool> = Wrap.Full(.some(true))\nlet r: int = match w {\n  .Full(.some(true)) -> 0\n  .Full(.none) -> 2\n  .Hollow -> 3\n}\nprintln(r)\n", true, vec!["Full of some of false"], 0),
+        ("type Col =\n  | Red\n  | Green\ntype Chain<T> =\n  | Stop\n  | Link(T, Chain<T>)\nlet c: Chain<Col> = Chain.Link(Col.Red, Chain.Stop)\nlet r: int = match c {\n  .Stop -> 0\n  .Link(.Red, .Stop) -> 1\n  .Link(.Green, .Stop) -> 2\n  .Link(_, .Link(.Red, _)) -> 3\n  .Link(_, .Link(.Green, _)) -> 4\n}\nprintln(r)\n", false, vec![], 0),
+        ("type Col =\n  | Red\n  | Green\ntype Chain<T> =\n  | Stop\n  | Link(T, Chain<T>)\nlet c: Chain<Col> = Chain.Link(Col.Red, Chain.Stop)\nlet r: int = match c {\n  .Stop -> 0\n  .Link(.Red, .Stop) -> 1\n  .Link(_, .Link(.Red, _)) -> 3\n  .Link(_, .Link(.Green, _)) -> 4\n}\nprintln(r)\n", true, vec!["Link of (Green, Stop)"], 0),
+        ("type Opt2<T> =\n  | Som(T)\n  | Non\ntype Pairs<T> =\n  | Both(option<(T, Opt2<T>)>)\n  | Neither\nlet p: Pairs<bool> = Pairs.Both(.some((true, Opt2.Non)))\nlet r: int = match p {\n  .Both(.some((true, .Som(true)))) -> 0\n  .Both(.some((true, .Som(false)))) -> 1\n  .Both(.some((false, .Som(_)))) -> 2\n  .Both(.some((true, .Non))) -> 3\n  .Both(.some((false, .Non))) -> 4\n  .Both(.none) -> 5\n  .Neither -> 6\n}\nprintln(r)\n", false, vec![], 0),
+        ("type Box2<T> = {\n  inner: option<T>\n  flag: bool\n}\nlet b: Box2<bool> = Box2(.some(true), false)\nlet r: int = match b {\n  Box2(.some(true), _) -> 0\n  Box2(.some(false), _) -> 1\n  Box2(.none, true) -> 2\n  Box2(.none, false) -> 3\n}\nprintln(r)\n", false, vec![], 0),
     ];
     let srcs: Vec<String> = cases.iter().map(|c| c.0.to_string()).collect();
     let vs = par_map(&srcs, |s| checker_verdict(&MatchProgram { src: s.clone(), arm_spans: vec![] }));
